@@ -177,7 +177,7 @@ fn all_acts(prog: &Prog) -> Vec<&Act> {
 }
 
 fn fail_ids(c: &Case) -> Vec<u16> {
-    let mut v: Vec<u16> = all_acts(c.prog).iter().filter(|a| matches!(a.op, Op::Src | Op::AndThen | Op::OrElse | Op::Then | Op::Or | Op::ThenV | Op::ThenF)).map(|a| a.id).collect();
+    let mut v: Vec<u16> = all_acts(c.prog).iter().filter(|a| matches!(a.op, Op::Src | Op::AndThen | Op::OrElse | Op::Then | Op::Or | Op::ThenV | Op::ThenF | Op::Filter | Op::ThenB)).map(|a| a.id).collect();
     if c.hk == Some(HK::AndThen) {
         v.push(c.prog.handler.as_ref().unwrap().id);
     }
@@ -189,7 +189,7 @@ fn gateable(c: &Case, a: &Act) -> bool {
     } else {
         // a hoisted initial value is evaluated by the caller in the capture prefix: gating it would
         // (correctly) stop the whole step, not one branch
-        !matches!(a.op, Op::Or | Op::WAndThen | Op::WMap | Op::WOrElse | Op::WMapErr | Op::WInspect) && !(a.op == Op::Src && a.cap != 0)
+        !matches!(a.op, Op::Or | Op::WAndThen | Op::WMap | Op::WOrElse | Op::WMapErr | Op::WInspect | Op::WFilter) && !(a.op == Op::Src && a.cap != 0)
     }
 }
 
